@@ -9,3 +9,6 @@ INVARIANT NucleusValues
 INVARIANT AlphaBounded
 INVARIANT Relabelling
 INVARIANT Reflection
+INVARIANT LawsHoldAudit
+INVARIANT EmittedAudit
+INVARIANT CutFamily
